@@ -77,6 +77,19 @@ def run(ctx):
                     reqs.setdefault((st, t, "late%d" % (m // 1500)), []).append(q)
                     m += 1
                     n_stmt += 1
+    # two sort keys (every pair of columns) and the largest LIMIT / OFFSET with small ones, against every table: no WHERE, no
+    # GROUP BY, so that each of them reaches the sort and the window with all rows of the table
+    star = [l for l in comps[1] if l[0]["k"] == "star"][:1]
+    windows = [dict(limit=big(x["limit"]), offset=big(x["offset"])) for x in comps[5] if -2 in (x["limit"], x["offset"])] + [dict(limit=-1, offset=-1)]
+    for t in range(1, len(tables)):
+        m2 = 0
+        for f in comps[0][:2]:
+            for o in sorted(sets["orders8pairs"], key=json.dumps) + [[]]:
+                for wdw in (windows if (not o or m2 % 5 == 0) else windows[-1:]):
+                    q = dict(**{"from": f}, list=star[0], where=[], group=[], order=o, limit=wdw["limit"], offset=wdw["offset"], style=m2 % 8, raw="")
+                    reqs.setdefault(("nulls", t, "pairs"), []).append(q)
+                    m2 += 1
+                    n_stmt += 1
     # texts just outside the grammar StmtGen describes: "any statement that parses" is decided by the parser under test, not
     # by the specification, so what the parser happens to accept of these is executed too (it must answer, not crash)
     near = ["SELECT avg(*) FROM t8", "SELECT count() FROM t8", "SELECT avg() FROM t8", "SELECT count(*), avg(*) FROM t8 GROUP BY a",
